@@ -311,12 +311,19 @@ def h_eval(eng, isa, prefix, extra, layout):
     for bidx, chunk in enumerate([rows[:split], rows[split:]][:n_blocks]):
         blk = order[bidx]
         off = eng.int("o%d" % bidx, 0, None)
-        dmap = {}
+        entries = []
         for j, row in enumerate(chunk):
             if j:
                 off = off + eng.int("d%d_%d" % (bidx, j), 1, None)
-            dmap[off] = [concrete_directive(d, symbols) for d in row]
+            entries.append((off, [concrete_directive(d, symbols) for d in row]))
             expected_locs.append((blk, off))
+        # the displacement map of a block is a dictionary: its insertion order is not address order in general (a pass
+        # that adds a directive in front of existing ones appends the smaller key last)
+        if layout != "one" and bidx == 0:
+            entries.reverse()
+        dmap = {}
+        for off_, row_ in entries:
+            dmap[off_] = row_
         if dmap:
             table[blk] = dmap
     abi = ABI.get(m)
@@ -409,7 +416,8 @@ def make_check(tier):
         "registers per row": "<= 3 distinct, save stack depth <= 3",
         "symbolic": "register numbers >= 0, offsets any integer, return column, block addresses/gap, directive displacements "
                     "(unbounded); escape operands one LEB128 byte; pointer encodings enumerated {0x00, 0x9b, 0xff}",
-        "blocks": "1 or 2 (passed in reverse address order)",
+        "blocks": "1 or 2 (passed in reverse address order); in the two-block layouts the first block's displacement map is filled in "
+                  "descending key order",
         "ABIs": list(ISAS),
     }
     chk.assumptions = [
